@@ -88,6 +88,9 @@ def gen_cases(rng: random.Random, tier: str):
     cases.append(mk(['E', ['P', 1], ['P', 1]], None, 'ensemble-abandon-gt-pipe', n=rng.choice([400, 600]), in_kb=2, delay_ms=2, cap=1024))
     cases.append(mk(['W', ['P', 1], ['P', 1]], None, 'switch-abandon-gt-pipe', n=rng.choice([400, 600]), in_kb=2, delay_ms=2, cap=1024))
     cases.append(mk(['E', ['P', 1], ['P', 1]], None, 'ensemble-big-results', n=60, out_kb=50, delay_ms=5, cap=64))
+    # a fast multi-worker member (one stop sentinel per worker) next to a slow process member with a backlog:
+    # `_dequeue` must wait for a sentinel from EVERY member, not for that many sentinels
+    cases.append(mk(['E', ['T', 2], ['P', 1]], None, 'ensemble-big-results', n=60, out_kb=50, delay_ms=5, cap=64))
     # (d'') F19-like remainder: switch members share the output queue
     cases.append(mk(['W', ['P', 1], ['P', 1]], None, 'switch-big-results', n=60, out_kb=50, delay_ms=5, cap=64))
     # (e) small workloads on assorted shapes (exit, re-enter, serve again)
